@@ -287,6 +287,8 @@ func execOp(op string) vlib.Res {
 		return execL3Shed(a)
 	case "nss":
 		return execNss(a)
+	case "l3id":
+		return execL3ID(a)
 	}
 	if fc == nil {
 		return vlib.Res{Impl: "nocache"}
@@ -514,6 +516,8 @@ func execOp(op string) vlib.Res {
 		return vlib.Res{Impl: fmt.Sprintf("len=%d", fc.Len()), Oracle: or}
 	case "sset": // <name> <type> <class> <keycd> <scope> <class: useful|servfail|other> <now>
 		return execSet(a)
+	case "wserve": // <name> <type> <class> <cd> <opt> <now>
+		return execWServe(a)
 	case "probe": // <now> <n> then n × <q key 5>
 		return execProbe(a)
 	case "eserve": // <q key 5 (scope = the client's ECS source prefix)> <now> <outcome> <response SCOPE bits>
